@@ -311,6 +311,75 @@ def stepBoth (st : IOState × List Slots) : IOOp → (IOState × List Slots) × 
   | .read => (((opRead false st.1).1, (specRead st.2 st.1).1), decide ((opRead false st.1).2 = (specRead st.2 st.1).2))
   | .write m => (((opWrite st.1 m).1, (specWrite st.2 m).1), (opWrite st.1 m).2.matches (specWrite st.2 m).2)
 
+/-! ## the order in which `Read` hands messages out (C03: messages of one peer reach the dispatcher
+in the order in which they were written) -/
+
+/-- the messages a frame carries, in the order in which the peer wrote them (none if the frame is not
+a message or a non-empty array of messages) -/
+def frameMsgs (raw : JVal) : List Msg :=
+  match readBatch raw with
+  | .ok (ms, _) => ms
+  | .error _ => []
+
+/-- what is still to be handed out: the unread rest of the last frame, then the frames not yet taken -/
+def IOState.pendingMsgs (s : IOState) : List Msg := s.queue ++ s.wire.flatMap frameMsgs
+
+/-- one label of the machine (`Read` results are dropped here; see `readResults`) -/
+def ioStep (s : IOState) : IOOp → IOState
+  | .feed raw => { s with wire := s.wire ++ [raw] }
+  | .setNoBatch b => { s with noBatch := b }
+  | .read => (opRead false s).1
+  | .write m => (opWrite s m).1
+
+def ioRun (s : IOState) : List IOOp → IOState
+  | [] => s
+  | op :: t => ioRun (ioStep s op) t
+
+/-- what the `Read`s of a label sequence returned, in order -/
+def readResults (s : IOState) : List IOOp → List ReadOut
+  | [] => []
+  | .read :: t => (opRead false s).2 :: readResults (opRead false s).1 t
+  | op :: t => readResults (ioStep s op) t
+
+/-- the frames a label sequence puts on the stream, in order -/
+def fedFrames : List IOOp → List JVal
+  | [] => []
+  | .feed raw :: t => raw :: fedFrames t
+  | _ :: t => fedFrames t
+
+def ReadOut.msg? : ReadOut → Option Msg
+  | .msg m => some m
+  | .err _ => none
+
+/-- the messages returned up to the first failing `Read` (a read error ends the connection: the
+jsonrpc2 reader stops at the first error) -/
+def msgsUntilErr : List ReadOut → List Msg
+  | .msg m :: t => m :: msgsUntilErr t
+  | _ => []
+
+/-- The order judgement of the monitor, on what the peer wrote (`expect`: the wire elements of the
+accepted frame not yet handed out) and the message `Read` returned: out of order iff the message is
+not the next element but IS one of the later ones. -/
+def outOfOrder (same : Msg → JVal → Bool) (expect : List JVal) (m : Msg) : Bool :=
+  match expect with
+  | [] => false
+  | e :: rest => !same m e && rest.any (same m)
+
+/-- a JSON value that is not an object is not a message -/
+def notMsgShaped : JVal → Bool
+  | .obj _ => false
+  | _ => true
+
+/-- how the clause texts name a frame -/
+def frameDesc : JVal → String
+  | .null => "null"
+  | .arr [] => "[] (an array without elements)"
+  | .arr l =>
+    if l.all notMsgShaped then s!"an array of {l.length} values none of which is an object"
+    else s!"a batch of {l.length} elements"
+  | .obj _ => "a single object"
+  | _ => "a value that is neither an object nor an array"
+
 def runBoth (st : IOState × List Slots) : List IOOp → (IOState × List Slots) × Bool
   | [] => (st, true)
   | op :: t =>
